@@ -3,7 +3,7 @@ ID = "C12"
 CRATE = "c12"
 COQ_DIR = "C12"
 COQ_DEPS = []
-PROFILES = ["debug"]
+PROFILES = ["debug", "release"]
 # no Open Scope N_scope here: the driver finds failing case numbers by the "%N" suffix Coq prints outside N_scope
 CORR_IMPORT = "From RlibV Require Import C12.Model C12.Corr.\nClose Scope N_scope."
 AUDIT_IMPORT = ("From Coq Require Import String Ascii NArith List Bool Sorted.\nImport ListNotations.\n"
